@@ -324,8 +324,94 @@ let run_seq fuel =
      done
    with End_of_file -> ())
 
+
+(* ================================================================ concurrency glue (C19, C08, C18, ...) *)
+(* generic exhaustive exploration of a finite transition system given as an extracted step function:
+   states are compared through a canonical key; `succ` lists the successor states *)
+let explore (type s) (key : s -> string) (succ : s -> s list) (init : s) (max_states : int) : s list * bool =
+  let seen : (string, unit) Hashtbl.t = Hashtbl.create 4096 in
+  let finals = ref [] in
+  let stack = ref [init] in
+  let complete = ref true in
+  Hashtbl.replace seen (key init) ();
+  while !stack <> [] do
+    (match !stack with
+     | st :: rest ->
+         stack := rest;
+         let nx = succ st in
+         if nx = [] then finals := st :: !finals
+         else List.iter (fun s' ->
+             let k = key s' in
+             if not (Hashtbl.mem seen k) then begin
+               if Hashtbl.length seen >= max_states then complete := false
+               else begin Hashtbl.replace seen k (); stack := s' :: !stack end
+             end) nx
+     | [] -> ())
+  done;
+  (!finals, !complete)
+
+(* ---- C19: the observer gate ---- *)
+let gcall_of_sx = function
+  | L [A "next"; v] -> GNext (atom_nat v)
+  | L [A "error"] -> GError
+  | L [A "complete"] -> GComplete
+  | L [A "unsub"] -> GUnsub
+  | x -> failwith ("bad gate call " ^ sx_to_string x)
+let gev_str = function GN v -> "n" ^ string_of_int (int_of_nat v) | GE -> "e" | GC -> "c"
+
+(* canonical, closure-free form of a gate configuration: only callback starts are kept of the trace *)
+let gate_norm (nthr : int) (c : gcfg) : gcfg =
+  let tab = Array.init nthr (fun i -> c.g_thr (nat_of_int i)) in
+  { c with g_thr = (fun t -> let i = int_of_nat t in if i < nthr then tab.(i) else { g_prog = []; g_pc = PIdle; g_late = false });
+           g_trace = List.filter (function EvCbStart _ -> true | _ -> false) c.g_trace }
+let gate_key (nthr : int) (c : gcfg) : string =
+  let tab = List.init nthr (fun i -> c.g_thr (nat_of_int i)) in
+  Marshal.to_string (c.g_n, c.g_e, c.g_c, c.g_termret, tab, c.g_trace) []
+let gate_enabled (th : gthread) : bool = not (th.g_pc = PIdle && th.g_prog = [])
+
+let gate_explore () =
+  (try
+     while true do
+       let line = input_line stdin in
+       if String.length line > 0 && line.[0] = '(' then begin
+         match parse_sx line with
+         | [L (A "progs" :: ts)] ->
+             let progs = List.map (function L (A "t" :: cs) -> List.map gcall_of_sx cs | x -> failwith ("bad thread " ^ sx_to_string x)) ts in
+             let n = List.length progs in
+             let arr = Array.of_list progs in
+             let init = gate_norm n (ginit (fun t -> let i = int_of_nat t in if i < n then arr.(i) else [])) in
+             let succ c = List.concat (List.init n (fun i -> if gate_enabled (c.g_thr (nat_of_int i)) then [gate_norm n (gstep c (nat_of_int i))] else [])) in
+             let (finals, complete) = explore (gate_key n) succ init 2000000 in
+             let logs = List.sort_uniq compare (List.map (fun c ->
+                 String.concat " " (List.filter_map (function EvCbStart (_, e, _) -> Some (gev_str e) | _ -> None) c.g_trace)) finals) in
+             Printf.printf "(logs %s %s)\n" (if complete then "complete" else "incomplete") (String.concat " " (List.map (fun l -> "(" ^ l ^ ")") logs))
+         | _ -> print_endline "(error \"bad progs\")"
+       end
+     done
+   with End_of_file -> ())
+
+let gate_oracle_cmd () =
+  (try
+     while true do
+       let line = input_line stdin in
+       if String.length line > 0 && line.[0] = '(' then begin
+         match parse_sx line with
+         | [L (A "cbs" :: cbs)] ->
+             let conv = function
+               | L [k; b; s; r] ->
+                   let e = (match k with A "e" -> GE | A "c" -> GC | A _ -> GN O | L _ -> GN O) in
+                   (((e, atom_nat b), atom_nat s), atom_nat r)
+               | x -> failwith ("bad cb " ^ sx_to_string x) in
+             print_endline (if gate_oracle (List.map conv cbs) then "ok" else "fail")
+         | _ -> print_endline "fail unreadable"
+       end
+     done
+   with End_of_file -> ())
+
 let () =
   match Array.to_list Sys.argv with
   | _ :: "run-seq" :: fuel :: _ -> run_seq (int_of_string fuel)
   | _ :: "oracle" :: name :: sf :: obf :: _ -> oracle name sf obf
+  | _ :: "gate-explore" :: _ -> gate_explore ()
+  | _ :: "gate-oracle" :: _ -> gate_oracle_cmd ()
   | _ -> prerr_endline "usage: driver run-seq FUEL < scenarios"; exit 2
